@@ -35,6 +35,10 @@ def configs(ctx):
     add('1d-p1-n2-L4-d1', P1=1, N1=2, MaxLev=4, Disp=1, MaxCalls=3, MarkCap=1)
     add('1d-p1-n5-inf', P1=1, N1=5, MarkCap=1)     # interior single cells: refinements that only ACTIVATE functions
     add('2d-p12-2x2-inf', D=2, P1=1, P2=2, N1=2, N2=2, MarkCap=1, workers=10)
+    import os
+    if os.environ.get('VERIF_ONLY_CONFIG'):      # debugging aid: restrict to one configuration
+        out = [o for o in out if o[0] == os.environ['VERIF_ONLY_CONFIG']]
+        return out
     if ctx.thorough:
         add('1d-p3-n3-inf-c3', P1=3, MaxCalls=3, MarkCap=2, workers=4)
         add('1d-p2-n3-d2-L4', MaxLev=4, Disp=2, MaxCalls=3, MarkCap=2, workers=4)
@@ -201,6 +205,33 @@ def check_state(ctx, name, consts, ref, rp, by_hist):
                 except Exception as ex:
                     ctx.violation('exception %s in prolongate_to %s' % (type(ex).__name__, sig), {'error': repr(ex)})
 
+    # (iii'') prolongate_to from every EARLIER ancestor (in particular the tensor-product space the history started from):
+    # levels in between may have no active function left
+    for k in range(0, len(marks) - 1):
+        anc = 'init' if k == 0 else by_hist.get(json.dumps(marks[:k]))
+        if anc is None:
+            continue
+        try:
+            ha, _, erra = hs_util.replay_history(consts, hist[:k], truncflag=consts['TruncMark'])
+            if erra is not None:
+                continue
+            if anc == 'init':
+                Ha = np.eye(int(np.prod(ref.nf[0])))
+            else:
+                Fa = [(l, tuple(x)) for l, x in ha.active_functions(flat=True)]
+                if Fa != [(e['l'], tuple(e['x'])) for e in anc['canonF']]:
+                    continue
+                Ha = dense(anc['hb'], anc['nfine'], len(Fa))
+            P = ha.prolongate_to(hs_fine).toarray()
+            lhs = H @ P
+            rhs = ref.tp(ha.numlevels - 1, Lc - 1) @ Ha
+            if P.shape != (n, Ha.shape[1]) or abs(lhs - rhs).max() > 1e-11:
+                ctx.violation('prolongate_to disparity=%s from-ancestor steps-back=%d' % (consts['Disp'] or 'inf', len(marks) - k),
+                              {'config': name, 'marks_per_call': marks, 'ancestor_calls': k,
+                               'maxdiff': float(abs(lhs - rhs).max()) if lhs.shape == rhs.shape else 'shape'})
+        except Exception as ex:
+            ctx.violation('exception %s in prolongate_to from-ancestor %s' % (type(ex).__name__, sig), {'error': repr(ex)})
+
     # (iii') the two calls in the other order (one history per reachable state is emitted, so the reverse order of a
     # commuting pair is otherwise never replayed): same space, and prolongate_to from the other intermediate space
     if len(marks) == 2 and consts['Disp'] == 0 and all(not lv for lv in marks[1][1:]) and all(not lv for lv in marks[0][1:]):
@@ -253,6 +284,29 @@ def check_state(ctx, name, consts, ref, rp, by_hist):
                     break
         except Exception as ex:
             ctx.violation('exception %s in HSplineFunc truncate=%s %s' % (type(ex).__name__, trunc, sig), {'error': repr(ex)})
+
+    # (v') a THB space restricts to a THB space: the trace of sum_i u_i T_i is sum_k u_idx[k] T^b_k in the face space's OWN
+    # (default) basis
+    if hs.dim == 2:
+        hs_t, _, errt = hs_util.replay_history(consts, hist, truncate=True, truncflag=consts['TruncMark'])
+        if errt is None and hs_util.project(hs_t) == hs_util.project(hs):
+            nfine_ = tuple(kv.numdofs for kv in hs.knotvectors(Lc - 1))
+            for bd in ((0, 0), (1, 1)):
+                try:
+                    bhs, idx = hs_t.boundary(bd)
+                    idx = np.asarray(idx)
+                    Tb = bhs.represent_fine().toarray()          # the face space's default basis
+                    Pb = np.eye(Tb.shape[0])
+                    for l in range(bhs.numlevels - 1, Lc - 1):
+                        Pb = ref.ts[l][1 - bd[0]] @ Pb
+                    Tb = Pb @ Tb
+                    Tfull = T.reshape(nfine_ + (n,))
+                    tr = Tfull[0 if bd[1] == 0 else -1, :, :] if bd[0] == 0 else Tfull[:, 0 if bd[1] == 0 else -1, :]
+                    if not bool(getattr(bhs, 'truncate', False)) or tr[:, idx].shape != Tb.shape or abs(tr[:, idx] - Tb).max() > 1e-11:
+                        ctx.violation('boundary of a THB space: trace not preserved in the face space basis bdspec=%s' % (bd,),
+                                      {'config': name, 'marks_per_call': marks, 'face_space_truncate': bool(getattr(bhs, 'truncate', False))})
+                except Exception as ex:
+                    ctx.violation('exception %s in boundary (THB) bdspec=%s %s' % (type(ex).__name__, bd, sig), {'error': repr(ex)})
 
     # (v) restriction to boundary faces (2-D)
     if hs.dim == 2:
